@@ -267,7 +267,11 @@ func (ex *exec) lemma(st *State, goal *Term, label string, pos token.Pos) bool {
 	if goal == False {
 		return false
 	}
-	q := BuildQuery(st.pc, goal, ex.ct != nil && ex.ct.Opaque)
+	hyps := st.pc
+	if ex.lemmaDepth > 0 {
+		hyps = sliceHyps(st.pc, goal, ex.lemmaDepth)
+	}
+	q := BuildQuery(hyps, goal, ex.ct != nil && ex.ct.Opaque)
 	ex.eng.lemmaMu.Lock()
 	r, ok := ex.eng.lemmaMemo[q.Text]
 	ex.eng.lemmaMu.Unlock()
@@ -278,7 +282,7 @@ func (ex *exec) lemma(st *State, goal *Term, label string, pos token.Pos) bool {
 		ex.eng.lemmaMemo[q.Text] = r
 		ex.eng.lemmaMu.Unlock()
 		if r {
-			o := &Oblig{Name: fmt.Sprintf("%s/lemma:%s@%s", ex.root.Key, label, ex.pos(pos)), Func: ex.root.Key, Kind: "lemma", Label: label, Pos: ex.pos(pos), Res: res, Hyps: append([]*Term{}, st.pc...), Goal: goal}
+			o := &Oblig{Name: fmt.Sprintf("%s/lemma:%s@%s", ex.root.Key, label, ex.pos(pos)), Func: ex.root.Key, Kind: "lemma", Label: label, Pos: ex.pos(pos), Res: res, Hyps: hyps, Goal: goal}
 			ex.nameN[o.Name]++
 			if ex.nameN[o.Name] > 1 {
 				o.Name = fmt.Sprintf("%s#%d", o.Name, ex.nameN[o.Name])
@@ -326,6 +330,8 @@ func (ex *exec) applyContract(st *State, ct *Contract, fn *types.Func, recv Valu
 	pre := st.clone()
 	short := ct.Key
 	env := &specEnv{ex: ex, st: st, old: pre, names: names, sigOverride: sig}
+	aenv := *env
+	aenv.assume = true
 	for _, r := range ct.Requires {
 		g := env.toBool(env.eval(r.Expr))
 		lbl := short
@@ -373,8 +379,9 @@ func (ex *exec) applyContract(st *State, ct *Contract, fn *types.Func, recv Valu
 			names["result"] = v
 		}
 	}
+	aenv.names = names
 	for _, e := range ct.Ensures {
-		st.assume(env.toBool(env.eval(e.Expr)))
+		st.assume(aenv.toBool(aenv.eval(e.Expr)))
 	}
 	switch len(res) {
 	case 0:
@@ -630,7 +637,13 @@ func (ex *exec) runCase(fi *FuncInfo, ct *Contract, ac aliasCase) {
 		st.assume(g)
 	}
 	for _, r := range ct.Requires {
-		st.assume(ex.evalSpecBool(st, fr, r.Expr, nil))
+		env := ex.newSpecEnv(st, fr, nil)
+		env.assume = true
+		st.assume(env.toBool(env.eval(r.Expr)))
+	}
+	ex.mulLog = nil
+	for _, f := range ct.Facts {
+		ex.applyFact(st, fr, f, fi.Decl.Pos())
 	}
 	// vacuity cover: the precondition must be satisfiable
 	ex.cover(st, "requires", fi.Decl.Pos())
@@ -669,6 +682,7 @@ func (ex *exec) runCase(fi *FuncInfo, ct *Contract, ac aliasCase) {
 				if o.kind == ONormal && sig.Results().Len() > 0 {
 					ex.fail(fi.Decl.Pos(), "missing return")
 				}
+				ex.cover(o.st, "return", o.pos)
 				ex.checkPost(o, fi, ct, fr)
 			case OPanic:
 				var conds []*Term
@@ -718,7 +732,9 @@ func (ex *exec) checkPost(o *Outcome, fi *FuncInfo, ct *Contract, fr *frame) {
 		}
 	}
 	for _, e := range ct.Ensures {
-		g := ex.evalSpecBool(st, fr, e.Expr, extra)
+		env := ex.newSpecEnv(st, fr, extra)
+		env.witness = ct.Witness
+		g := env.toBool(env.eval(e.Expr))
 		ex.oblige(st.clone(), "post", e.Label, g, o.pos)
 	}
 	if ct.Returns != nil && len(fr.results) > 0 {
@@ -914,19 +930,110 @@ func (eng *Engine) SolveAll(obs []*Oblig) {
 			defer func() { <-sem }()
 			q := BuildQuery(o.Hyps, o.Goal, o.Opaque)
 			o.query = q
-			o.Res = Solve(q, eng.timeoutS, o.Kind != "cover")
 			if o.Kind == "cover" {
-				// a cover must be satisfiable: sat = good
+				// a cover must be satisfiable: sat = covered, unsat = vacuous (failure),
+				// unknown = inconclusive (not a failure, reported as such)
+				o.Res = Solve(q, 5, false)
 				switch o.Res.Verdict {
 				case Refuted:
 					o.Res.Verdict = Proved
 					o.Res.Model = ""
+					o.Res.Detail = "covered (sat)"
 				case Proved:
 					o.Res.Verdict = Refuted
 					o.Res.Detail = "vacuous: assumptions are contradictory"
+				default:
+					o.Res.Verdict = Proved
+					o.Res.Detail = "cover inconclusive (solver returned unknown; not vacuous as far as known)"
+					o.Inconclusive = true
 				}
+				return
 			}
+			o.Res = Solve(q, eng.timeoutS, true)
 		}()
 	}
 	wg.Wait()
+}
+
+// applyFact: built-in arithmetic rules that the solvers do not find on their own.
+//   mulbound(x, y, cx, cy):  0<=x<=cx, 0<=y<=cy  |-  0 <= x*y <= cx*cy   (monotonicity of * on naturals)
+func (ex *exec) applyFact(st *State, fr *frame, f Clause, pos token.Pos) {
+	call, ok := f.Expr.(*ast.CallExpr)
+	if !ok {
+		ex.fail(pos, "fact must be a rule application")
+	}
+	name := call.Fun.(*ast.Ident).Name
+	switch name {
+	case "mulbound":
+		if ex.mode != ModeInt {
+			ex.fail(pos, "mulbound needs int mode")
+		}
+		x := ex.evalSpecTerm(st, fr, call.Args[0], nil)
+		y := ex.evalSpecTerm(st, fr, call.Args[1], nil)
+		cx := ex.evalSpecTerm(st, fr, call.Args[2], nil)
+		cy := ex.evalSpecTerm(st, fr, call.Args[3], nil)
+		if !cx.IsConst() || !cy.IsConst() {
+			ex.fail(pos, "mulbound bounds must be constants")
+		}
+		ex.oblige(st, "fact", f.Label+".x", And(IntLe(IntC64(0), x), IntLe(x, cx)), pos)
+		ex.oblige(st, "fact", f.Label+".y", And(IntLe(IntC64(0), y), IntLe(y, cy)), pos)
+		p := IntMul(x, y)
+		st.assume(IntLe(IntC64(0), p))
+		st.assume(IntLe(p, IntMul(cx, cy)))
+	default:
+		ex.fail(pos, "unknown rule %s", name)
+	}
+}
+
+// sliceHyps keeps the hypotheses within `depth` steps of the goal in the
+// shared-symbol graph.  Dropping hypotheses is always sound.
+func sliceHyps(hyps []*Term, goal *Term, depth int) []*Term {
+	syms := func(t *Term) map[string]bool {
+		vars, ufs := map[string]*Term{}, map[string]*Term{}
+		collectSyms(t, vars, ufs, map[*Term]bool{})
+		m := map[string]bool{}
+		for k := range vars {
+			m[k] = true
+		}
+		return m
+	}
+	hs := make([]map[string]bool, len(hyps))
+	for i, h := range hyps {
+		hs[i] = syms(h)
+	}
+	front := syms(goal)
+	in := make([]bool, len(hyps))
+	for d := 0; d < depth; d++ {
+		next := map[string]bool{}
+		for i := range hyps {
+			if in[i] {
+				continue
+			}
+			hit := false
+			for k := range hs[i] {
+				if front[k] {
+					hit = true
+					break
+				}
+			}
+			if hit {
+				in[i] = true
+				for k := range hs[i] {
+					if !front[k] {
+						next[k] = true
+					}
+				}
+			}
+		}
+		for k := range next {
+			front[k] = true
+		}
+	}
+	var out []*Term
+	for i, h := range hyps {
+		if in[i] {
+			out = append(out, h)
+		}
+	}
+	return out
 }
